@@ -45,6 +45,8 @@ def locate_one(values, val, issorted=False, tol=None, side='left'):
         val = _maybe_convert_datetime64(val)
 
     if tol is not None:
+        if values.size == 0: # nothing is near an element of an empty axis
+            raise IndexError("Did not find element `{}` in the axis with `tol={}`".format(repr(val), repr(tol)))
         try:
             dist = np.abs(values - val)
             match = np.argmin(dist)
